@@ -25,30 +25,36 @@
     * `unclaimed`      contigs claimed by no piece carry no tags and have names not shaped `<hap>_…_<digits>`.
   `NoClashDeep`: the names of the fused scaffolds are pairwise different (as `NoClash` for aligned maps).
 
+  FULL CLASS — `DeepCutN input ptx err` (`Proofs/C02DNHyp.lean`; checker `deepCutNB`, `deepCutN_of_check`): the clauses of
+  `DeepCut` without `two`: a contig may be cut ANY number of times.  The holders of a shared contig, sorted by where their
+  baits begin, form its `chain` (`SiteN`, `sitesN`, `site_of_n_def`); EVERY TWO CONSECUTIVE holders `a`, `b` of a chain
+  must satisfy the site conditions `SiteOk` listed above (`ChainOk`): one PretextView cut each.  (The holders in the
+  middle of a chain then lie wholly inside the contig.)
+
   PROVED
-    `remap_to_input_deep`          the build: `store = expectedStoreDeep` — one result per piece, in Pretext order, the
-                                   shared terminal contigs trimmed to the bait (`cutPiece`, `cut_piece_def`), new
-                                   Fragments tagged `Cut` with the object ids the code hands out — `extra` = the
-                                   left-overs, `multi = []`, `cuts` = number of cut sites; no error: the resolver
-                                   (`discard_overhanging_fragments`) changes nothing, every QC passes.
-    `deep_map_rearranges_partial`  `remap = .ok (primaryOnly (expectedScaffoldsDeep input ptx jg), stats)` and
+    `deep_map_rearranges`          FULL STRENGTH for the untagged / unpainted class, forward and reverse contigs, any
+                                   number of cuts per contig: `remap = .ok (primaryOnly (expectedScaffoldsDeepN …), stats)`,
                                    `stats.cuts = (piece, shared contig) incidences − shared contigs`.
+    `remap_to_input_deep_full`     the build for that class: `store = expectedStoreDeepN` (`cutPieceN`), no error.
+    `remap_to_input_deep`,
+    `deep_map_rearranges_partial`  the same for `DeepCut` (one cut per contig), with the simpler specification functions
+                                   `sites` / `cutPiece` (pairs instead of chains); kept because `deep_cut_position` is stated
+                                   for it.
     `deep_cut_position`            the cut is exactly where the Pretext coordinate designates: the contig `name:s..e` at
                                    scaffold coordinates `cs..ce`, cut by `c | c+1`, becomes `name:s..s+(c−cs)` (last row of
                                    piece `a`) and `name:s+(c−cs)+1..e` (first row of piece `b`); mirrored for a reverse
-                                   contig: `name:e−(c−cs)..e` and `name:s..e−(c−cs)−1`.
-  PARTIAL — what is missing for the full statement of the task (`deep_map_rearranges`, same conclusion):
-    the clause `two`.  The full class allows a contig to be cut several times (three or more holders, the middle ones
-    lying wholly inside the contig).  Needed for that: `cut_fragments` for `n` holders (induction over the sorted holder
-    list: `cutFragments_pair` → `cutFragments_chain`, and the QC of `n` abutting pieces instead of `qc_two`); everything
-    else (`find_assembly_overlaps`, the resolver — `fixOne_quiet` is already for any number of premises —, add-missing,
-    fuse, split) is proved without using `two`.  Both strands are covered; nothing is restricted to forward contigs.
-  NOT COVERED (restriction of the class): tagged / painted pieces.
+                                   contig: `name:e−(c−cs)..e` and `name:s..e−(c−cs)−1`.  (Stated for `DeepCut`; for
+                                   `DeepCutN` the same arithmetic is in `cutPieceN` — `cut_piece_n_def` — and is evaluated
+                                   on a contig cut twice below.)
+    `cut_fragments_chain`, `qc_accepts_chain`   `cut_fragments` for any number of holders; the QC accepts `n` abutting pieces.
+    `resolver_idle`                `discard_overhanging_fragments` changes nothing on these maps.
+  NOT COVERED (restriction of the class, not a `_partial` proof): tagged / painted pieces.
 -/
 import AgpTpf.Proofs.C02DCheck
 import AgpTpf.Proofs.C02DPos
 import AgpTpf.Proofs.C02DRegSpec
 import AgpTpf.Proofs.C02DChain
+import AgpTpf.Proofs.C02DNCheck
 namespace AgpTpf.C02
 open AgpTpf
 
@@ -185,10 +191,8 @@ theorem cuts_count {input ptx : List Scaffold} {err : Int} (hd : DeepCut input p
   have h2 : (sites input ptx).length = (sharedKeys input ptx).length := by simp [sites]
   omega
 
-/-- **C02, maps cutting deep inside contigs — PARTIAL: each contig shared by at most two pieces (clause `two` of
-    `DeepCut`).**
-    Full statement (task `deep_map_rearranges`): the same conclusion for the class in which a contig may be shared by any
-    number of pieces, all through deep cuts.  Missing: `cut_fragments` for more than two holders (see the file header).
+/-- **C02, maps cutting deep inside contigs — the special case of `deep_map_rearranges` below in which each contig is
+    shared by at most two pieces (clause `two` of `DeepCut`)**, with the simpler specification `sites` / `cutPiece`.
 
     `remap` does not fail; it returns one primary, curated assembly whose scaffolds are, in `smart_sort_scaffolds` order,
     `expectedScaffoldsDeep input ptx jg`: for every Pretext scaffold the rows of its pieces in Pretext order — each piece
@@ -202,6 +206,80 @@ theorem deep_map_rearranges_partial (input ptx : List Scaffold) (prefix_ : Str) 
       stats.cuts = (incidences input ptx : Int) - ((sharedKeys input ptx).length : Int) := by
   obtain ⟨st, h1, h2⟩ := remap_deep input ptx prefix_ jg err hd hnc hstr
   exact ⟨st, h1, by rw [h2]; exact cuts_count hd⟩
+
+/-! ## the full class: any number of cuts per contig -/
+
+/-- the chain of a shared contig: its holders sorted (stably) by where their baits begin -/
+theorem site_of_n_def (ptx : List Scaffold) (found : List (Key × Found)) (k : Key) (fnd : Found)
+    (h : dGet? found k = some fnd) :
+    siteOfN ptx found k = ⟨k, fnd.fragment, sortByIntKey (fun s => (pieceAt ptx s).2.start) fnd.scaffolds⟩ := by
+  unfold siteOfN; rw [h]
+
+/-- `DeepCutN`: the base clauses, and every two consecutive holders of every chain form a cut site -/
+theorem deep_cut_n_def (input ptx : List Scaffold) (err : Int) :
+    DeepCutN input ptx err ↔
+      DeepBase input ptx err ∧
+      ∀ x ∈ sitesN input ptx, Adj (fun a b => SiteOk input ptx err ⟨x.key, x.frag, a, b⟩) x.chain :=
+  ⟨fun h => ⟨h.base, h.chains⟩, fun h => ⟨h.1, h.2⟩⟩
+
+/-- the start of result `i` is cut iff `i` stands in some chain but not first, its end iff not last; the new Fragment of
+    the holder at chain position `p` gets object id `oid0 + (ids used by earlier chains) + p` for a forward contig and
+    `… + (len − 1 − p)` for a reverse one (holders are visited in contig order); a holder in the middle of a chain is cut
+    at both ends into ONE new Fragment -/
+theorem cut_piece_n_def (input ptx : List Scaffold) (i : Nat) (p : Fragment) :
+    cutPieceN input ptx i p =
+      (let l := withOffsets 0 (sitesN input ptx)
+       let o1 := match startCutN (oid0 input) l i with
+         | some oid => trimStartSpec oid (pieceO input p)
+         | none => pieceO input p
+       match endCutN (oid0 input) l i with
+         | some oid => trimEndSpec oid o1
+         | none => o1) := rfl
+
+theorem start_end_cut_n_def (base : Nat) (l : List (SiteN × Nat)) (i : Nat) :
+    startCutN base l i = l.findSome? (fun y =>
+      if 0 < y.1.chain.idxOf i ∧ y.1.chain.idxOf i < y.1.chain.length then some (oidAt base y (y.1.chain.idxOf i)) else none) ∧
+    endCutN base l i = l.findSome? (fun y =>
+      if y.1.chain.idxOf i + 1 < y.1.chain.length then some (oidAt base y (y.1.chain.idxOf i)) else none) ∧
+    (∀ y p, oidAt base y p = base + y.2 + (if y.1.frag.strand = 1 then p else y.1.chain.length - 1 - p)) :=
+  ⟨rfl, rfl, fun _ _ => rfl⟩
+
+/-- **`remap_to_input_assembly` on a deep-cut map, any number of cuts per contig** -/
+theorem remap_to_input_deep_full (input ptx : List Scaffold) (prefix_ : Str) (jg : Gap) (err : Int)
+    (hd : DeepCutN input ptx err) :
+    ∃ b, remapToInput input ptx prefix_ (some jg) err = .ok b ∧
+      b.store = expectedStoreDeepN input ptx ∧
+      b.extra = expectedExtra (claimedKeys input ptx) jg input ∧
+      b.multi = [] ∧ b.cuts = cutsN input ptx ∧ b.joinGap = some jg ∧ b.namer.autosomePrefix = prefix_ :=
+  remapToInput_deepN input ptx prefix_ jg err hd
+
+/-- **C02, maps that cut deep inside contigs — full strength for untagged / unpainted maps.**
+    `remap` does not fail; it returns one primary, curated assembly whose scaffolds are, in `smart_sort_scaffolds` order,
+    `expectedScaffoldsDeepN input ptx jg`: for every Pretext scaffold the rows of its pieces in Pretext order — each piece
+    its lookup result with the shared terminal contigs cut at the bait (`cutPieceN`: by plain arithmetic on the bait
+    coordinates, `trimStartSpec` / `trimEndSpec`), reversed with strands negated iff the piece is on the minus strand, the
+    join gap between consecutive pieces — followed by the left-over scaffolds; `stats.cuts` is the number of (piece,
+    shared contig) incidences minus the number of shared contigs. -/
+theorem deep_map_rearranges (input ptx : List Scaffold) (prefix_ : Str) (jg : Gap) (err : Int)
+    (hd : DeepCutN input ptx err) (hnc : NoClashDeepN input ptx jg)
+    (hstr : ∀ sc ∈ input, ∀ f ∈ sc.fragments, f.strand = 1 ∨ f.strand = -1) :
+    ∃ stats, remap input ptx prefix_ (some jg) err = .ok (primaryOnly (expectedScaffoldsDeepN input ptx jg), stats) ∧
+      stats.cuts = (incidencesN input ptx : Int) - ((sharedKeys input ptx).length : Int) := by
+  obtain ⟨st, h1, h2⟩ := remap_deepN input ptx prefix_ jg err hd hnc hstr
+  exact ⟨st, h1, by rw [h2]; exact cutsN_eq input ptx⟩
+
+theorem expected_scaffolds_deep_n_def (input ptx : List Scaffold) (jg : Gap) :
+    expectedScaffoldsDeepN input ptx jg =
+      (groupsFrom 0 ptx).map (fun g =>
+        ({ name := outName g.1,
+           rows := g.2.foldl (fun built q =>
+             Scaffold.appendRows built (cutPieceN input ptx q.2 q.1).toScaffoldRows (some jg)) [],
+           rank := 3, originalName := some g.1.name, originalTags := some [] } : Scaffold)) ++
+      (input.filterMap (leftoverEntry (claimedKeys input ptx) jg)).map (·.1) := rfl
+
+/-- a `DeepCut` map is a `DeepCutN` map? — the converse inclusion is immediate: chains of length two -/
+theorem incidences_n_def (input ptx : List Scaffold) :
+    incidencesN input ptx = ((sharedKeys input ptx).map (fun k => (holdersOf input ptx k).length)).sum := rfl
 
 /-! ## where the cut falls -/
 
@@ -382,5 +460,40 @@ example : (cutFragments bQ fndQ).toOption.map (fun b => b.cuts) = some 2 ∧
     (cutFragments bQ fndQ).toOption.map (fun b => b.store.map (fun r => r.o.rows)) =
       some [[.frag (newQ 21 31 70)], [.frag (newQ 20 1 30)], [.frag (newQ 22 71 100)]] := by
   decide +kernel
+
+/-! ## non-vacuity of the full theorem: a forward contig cut TWICE and a reverse contig cut once -/
+
+private def b3 : Fragment := { oid := 6, name := "ctgB3".toList, start := 1, stop := 30, strand := 1 }
+/-- 180 bp: b1 1-80, gap, b2 86-145 (reverse here), gap, b3 151-180 -/
+private def sB' : Scaffold :=
+  { name := "scaffold_2".toList, rows := [.frag b1, .gap g5, .frag b2.reverse, .gap g5, .frag b3] }
+private def inpN : List Scaffold := [sA, sB']
+/-- `scaffold_1` (a1 1-100, gap, a2 111-190 reverse, gap, a3 201-240) is cut at 30 | 31 and 70 | 71 — both inside a1, the
+    middle piece 31..70 lies wholly inside a1 — and at 150 | 151 inside a2; `scaffold_2` is cut at 115 | 116 inside its
+    reverse contig b2 (86..145). -/
+private def ptxN : List Scaffold :=
+  [{ name := "Scaffold_1".toList,
+     rows := [pc sA.name 31 70 (-1), .gap jg, pc sB'.name 116 180 1, .gap jg, pc sA.name 151 240 1] },
+   { name := "Scaffold_2".toList,
+     rows := [pc sB'.name 1 115 1, .gap jg, pc sA.name 71 150 (-1), .gap jg, pc sA.name 1 30 1] }]
+
+example : DeepCutN inpN ptxN 9 := deepCutN_of_check _ _ _ (by decide +kernel)
+example : NoClashDeepN inpN ptxN jg := by unfold NoClashDeepN; decide +kernel
+example : ∀ sc ∈ inpN, ∀ f ∈ sc.fragments, f.strand = 1 ∨ f.strand = -1 := by decide
+
+/-- the chains: a1 is held by the pieces 5 (1..30), 0 (31..70), 4 (71..150) in scaffold order -/
+example : (sitesN inpN ptxN).map (fun x => (x.frag.name, x.chain)) =
+    [(b2.name, [3, 1]), (a2.name, [4, 2]), (a1.name, [5, 0, 4])] := by decide +kernel
+
+/-- `remap`, evaluated by the kernel independently of the theorems, returns the specified output; 4 cuts
+    = 7 incidences − 3 shared contigs -/
+example : (remap inpN ptxN "SUPER_".toList (some jg) 9).toOption.map (·.1) =
+    some (primaryOnly (expectedScaffoldsDeepN inpN ptxN jg)) := by decide +kernel
+example : (remap inpN ptxN "SUPER_".toList (some jg) 9).toOption.map (fun r => r.2.cuts) = some 4 := by decide +kernel
+example : incidencesN inpN ptxN = 7 ∧ (sharedKeys inpN ptxN).length = 3 := by decide +kernel
+
+/-- the three parts of a1, in the output: `ctgA1:31-70` (reversed piece), `ctgA1:71-100`, `ctgA1:1-30` -/
+example : ((expectedScaffoldsDeepN inpN ptxN jg).map (fun s => (fragmentsOf s.rows).filter (fun f => f.name = a1.name))).flatten.map
+      (fun f => (f.start, f.stop, f.strand)) = [(31, 70, -1), (71, 100, -1), (1, 30, 1)] := by decide +kernel
 
 end AgpTpf.C02
